@@ -1,5 +1,6 @@
 import AmrK.ReadAfterTaste
 import AmrK.TasteProofs
+import AmrK.TastePltSound
 /-! # C20 — whatever taste accepts, the reader can read completely and consistently -/
 namespace C20
 open Py Taste Reader ReaderR
@@ -23,5 +24,19 @@ theorem accepted_layout (raw : Bytes) (nf : Nat) (es : List Entry) (hnd : NoDege
     (hne : es ≠ []) (hcan : ∀ e ∈ es, canonHeader e.lo e.hi nf ≠ [])
     (h : shapeOK raw nf es = true) : Layout nf raw es :=
   shapeOK_sound raw nf es hnd hne hcan h
+
+/-- **whole plotfile**: if default validation reports good then every box listed in the level header
+    of every validated level has its binary file, and at its recorded byte position stands a FAB header
+    line naming exactly its index range with the plotfile's component count - the premise of
+    `read_after_accept` for every box the indexing interface can be asked for -/
+theorem good_plotfile_entries (header : Bytes) (limit : Option Int) (dirs : List (String × LevelDir))
+    (h : (tastePlt header limit dirs true true).1 = true) :
+    ∃ m, Header.parse header limit = .ok m ∧
+      ∀ p ∈ m.cellPaths, ∃ d c entries, dirs.lookup (String.fromUTF8! ⟨p.toArray⟩) = some d ∧ d.cellH = some c ∧
+        parseCellH c m.fields.length = .ok entries ∧
+        ∀ e ∈ entries, ∃ raw, d.files.lookup e.file = some raw ∧ 0 ≤ e.offset ∧
+          ∃ hd, parseFabHeader (lineOf (raw.drop e.offset.toNat)) = some hd ∧
+            hd.lo = e.lo ∧ hd.hi = e.hi ∧ hd.nf = (m.fields.length : Int) :=
+  Taste.good_plotfile_entries header limit dirs h
 
 end C20
